@@ -47,7 +47,7 @@ FS_QUICK = [
     FSCfg("TC4", "tless", "stateful", "s4", "basic"),
     FSCfg("NTR", "greater", "stateful", "f64"),
     FSCfg("TR", "less", "tless", "std", "std"),
-    FSCfg("TC8", "stateful", "greater", "v", "realloc"),
+    FSCfg("NTR", "stateful", "greater", "v", "realloc"),
 ]
 FS_THOROUGH = [
     FSCfg("TR", "coarse", "less", "s2", "basic"),
